@@ -589,10 +589,17 @@ class Loop:
 def loops_of(ft):
     """Describe each natural loop driven by Iterator::next: item term, source term, exits."""
     out = []
-    for head, body in ft.cfg.loops().items():
+    all_loops = ft.cfg.loops()
+    for head, body in all_loops.items():
         lp = Loop()
         lp.head, lp.body = head, body
-        lp.next = [c for c in ft.calls() if c.block in body and c.callee and c.callee.endswith("::next")]
+        inner = set()
+        for h2, b2 in all_loops.items():
+            if h2 != head and b2 < body:
+                inner |= b2
+        lp.inner = inner
+        lp.own = body - inner
+        lp.next = [c for c in ft.calls() if c.block in lp.own and c.callee and c.callee.endswith("::next")]
         lp.item = None
         lp.source = None
         lp.item_switch = None
